@@ -93,6 +93,7 @@ pub struct World<T: E> {
   borrowed: Vec<bool>,
   iters: Vec<Option<It<T>>>,
   ishadow: Vec<Option<std::collections::VecDeque<i64>>>,
+  irange: Vec<Option<(usize, usize)>>,
   shadow_ok: bool,
   pub out: String,
   mon: Vec<String>,
@@ -138,6 +139,7 @@ impl<T: E> World<T> {
       borrowed: vec![],
       iters: vec![],
       ishadow: vec![],
+      irange: vec![],
       shadow_ok: true,
       out: String::new(),
       mon: vec![],
@@ -156,6 +158,7 @@ impl<T: E> World<T> {
     while self.iters.len() <= i {
       self.iters.push(None);
       self.ishadow.push(None);
+      self.irange.push(None);
     }
   }
   fn put(&mut self, v: usize, mv: MiniVec<T>, sh: Vec<i64>) {
@@ -1200,6 +1203,7 @@ impl<T: E> World<T> {
               if let Some(sh) = self.shadow[v].as_ref() {
                 if e <= sh.len() {
                   self.ishadow[i] = Some(sh[s..e].iter().cloned().collect());
+                  self.irange[i] = Some((s, e));
                 }
               }
             }
@@ -1381,22 +1385,32 @@ impl<T: E> World<T> {
         }
         if let Some(v) = vi {
           self.borrowed[v] = false;
-          // std oracle for the vector after the iterator is gone: recomputed from what is there,
-          // checked against prefix ++ (replacement | retained) ++ suffix by the model comparison
-          if name == "dropit" && r.is_ok() && kind != 0 {
-            let mv = self.vref(v);
-            if mv.len() <= mv.capacity() {
-              let pays: Vec<i64> = mv.iter().map(|x| x.pay()).collect();
-              self.shadow[v] = Some(pays);
+          let range = self.irange[i].take();
+          if name == "dropit" && r.is_ok() && (kind == 0 || kind == 1) && self.shadow_ok {
+            // std oracle: Vec::drain / Vec::splice on the shadow; the replacement is what the scripted
+            // iterator produced during this drop, up to its first None
+            let mut repl: Vec<i64> = vec![];
+            for ev in lg().events.iter() {
+              if ev == "gn" || ev == "gP" {
+                break;
+              }
+              if let Some(id) = ev.strip_prefix('g').and_then(|x| x.parse::<u32>().ok()) {
+                repl.push(elem::payload_of(id));
+              }
             }
-          } else if name == "dropit" && r.is_ok() {
-            // Drain: oracle is exact: remove the window
+            match (self.shadow[v].as_mut(), range) {
+              (Some(sh), Some((s0, e0))) if e0 <= sh.len() => {
+                let _: Vec<i64> = sh.splice(s0..e0, repl).collect();
+              }
+              _ => self.shadow[v] = None,
+            }
+          } else {
+            // forget / panic / filter: re-read what is there (the model comparison judges it)
             let mv = self.vref(v);
-            let _ = mv;
-            self.shadow[v] = None; // recomputed below by the drain bookkeeping
-            let mv = self.vref(v);
-            if mv.len() <= mv.capacity() {
+            if mv.len() <= mv.capacity() && name == "dropit" && r.is_ok() {
               self.shadow[v] = Some(mv.iter().map(|x| x.pay()).collect());
+            } else {
+              self.shadow[v] = None;
             }
           }
         }
